@@ -44,7 +44,7 @@ def gen_actions(rng):
         k = rng.random()
         if nsess == 0 or (k < 0.1 and nsess < 3):
             out = rng.choice([None, None, None, True, False, 'no', 'raise',
-                              {'e': 1}])
+                              {'e': 1}, 'raise-type'])
             script.append(out)
             # every client polls and answers PINGs until it vanishes, so
             # that no end is caused by silence unless the history says so
@@ -120,7 +120,9 @@ def gen_actions(rng):
                            rng.choice([0.25, 1.0])}
     if rng.random() < 0.15:
         hcfg['boom'] = {rng.choice(['message:*', 'disconnect:*']): True}
-        hcfg['boom_base'] = rng.random() < 0.5
+        hcfg['boom_base'] = rng.random() < 0.4
+        if not hcfg['boom_base'] and rng.random() < 0.4:
+            hcfg['boom_type'] = 'typeerror'
     if rng.random() < 0.15:
         hcfg['legacy_disconnect'] = True
     return acts, script, hcfg
@@ -277,7 +279,8 @@ class Side:
         out = set()
         for s in self.R.S:
             for e in self.R.disconnects(s):
-                if e['reason'] in ('ping timeout', 'transport error'):
+                if e.get('true_reason', e['reason']) in (
+                        'ping timeout', 'transport error'):
                     out.add(s.n)
         return out
 
@@ -294,7 +297,8 @@ class Side:
             sn = sim.sidn(e['sid'])
             if sn in self.silent_sidn():
                 continue        # silent peer: only "ends within the bound"
-            if e['ev'] == 'disconnect' and e['reason'] in (
+            if e['ev'] == 'disconnect' and e.get(
+                    'true_reason', e['reason']) in (
                     'ping timeout', 'transport error'):
                 continue        # timing-caused end: instant/reason excluded
             else:
